@@ -359,6 +359,18 @@ func zzH_C13() {
 	}
 	g, isS = a.Get().(zzSentinel)
 	zzAssert(isS && g.n == 3, "get-is-live")
+	// writing nil is a write like any other: the location stays and holds nil
+	a.Set(nil)
+	if w.loc == 1 {
+		v, present := w.m[w.k]
+		zzAssert(present && v == nil, "set-nil-keeps-the-location")
+		w.m[w.k] = before
+	} else {
+		zzAssert(w.l[w.i] == nil, "set-nil-keeps-the-location")
+		w.l[w.i] = before
+	}
+	zzAssert(zzDocUnchanged(), "set-changed-nothing-else")
+	zzAssert(a.Get() == nil || zzSame(a.Get(), before), "get-is-live")
 }
 
 // ---- C18: equivalent spellings ----
@@ -366,8 +378,16 @@ func zzH_C13() {
 func zzH_C18() {
 	zzDeclHoles()
 	cfg := zzConfig()
-	f1, e1, p1 := zzTryParse(zzPath("path"), cfg)
-	f2, e2, p2 := zzTryParse(zzPath("alt"), cfg)
+	// optional symbolic bytes at the same logical place of both spellings
+	p1text := zzHoleBytes(zzPath("path"), zzParam("holepos"), "h")
+	p2text := zzHoleBytes(zzPath("alt"), zzParam("altpos"), "h")
+	if zzParam("holepos") != "" {
+		// the free byte is an ordinary character of a quoted name: not a quote, not a backslash
+		b := zzByte("h[" + zzParam("holepos") + "]")
+		zzAssume(b != '\'' && b != '"' && b != '\\')
+	}
+	f1, e1, p1 := zzTryParse(p1text, cfg)
+	f2, e2, p2 := zzTryParse(p2text, cfg)
 	zzAssert(p1 == nil && p2 == nil, "no-panic")
 	if p1 != nil || p2 != nil {
 		return
